@@ -66,6 +66,9 @@ func runCheck(id, tier string, only int) int {
 				res.outcomes = append(res.outcomes, o)
 			}
 		}
+		if id == "C13" && tier == "thorough" && only < 0 && os.Getenv("VERIF_RACE_BIN") != "" {
+			res.outcomes = append(res.outcomes, c13RaceLeg(p, seed)...)
+		}
 		rep := &Report{Prop: id, Tier: tier, Seed: seed, Outcomes: res.outcomes, Rule: p.Rule(),
 			Assumptions: p.Assumptions(), MinNontrivial: p.MinNontrivial(tier), DiedIsViolation: p.DiedIsViolation(), Start: start,
 			Extra: map[string]interface{}{"worker_restarts": res.restarts}}
